@@ -66,6 +66,14 @@ impl Property for C13 {
             }
             return out;
         }
+        // this check relies on "every item makes exactly one driver call" (C02); if the crate
+        // does not keep to that in the fault-free run, which call belongs to which item is
+        // anybody's guess
+        if base.log.len() != 1 + base.items.len() {
+            render_case(&mut out, &text, &built.sigs, Some(&spec0));
+            out.discard("call-protocol-broken-in-fault-free-run");
+            return out;
+        }
         let mut spec = spec0.clone();
         let ncalls = base.log.len();
         let use_deviation = !spec.layout.is_empty() && dch.chance(1, 2);
